@@ -356,4 +356,50 @@ theorem parseG_error_delivered {T : Tables} {inp : Array Nat} {wb : Bool} {fuel 
     · rw [hstk e he] at hsym; cases hsym
     · exact hd
 
+/-! ## The queued lookahead is a real token when the lexer delivers no ERROR token -/
+
+theorem readToken_noErr {T : Tables} {inp : Array Nat} {s s1 : PState}
+    (hinp : ∀ i : Nat, inp[i]? ≠ some 1) (h : readToken T inp s = .ok s1) (hq : s.qla ≠ tERROR) :
+    s1.la ≠ tERROR ∧ s1.qla ≠ tERROR := by
+  rw [readToken_eq] at h
+  split at h
+  · cases h; exact ⟨hq, show (-1 : Int) ≠ tERROR by decide⟩
+  · split at h
+    · rename_i hE
+      exact absurd (lexRead_error hE).2 (hinp _)
+    · rename_i hE
+      cases h; exact ⟨hE, hq⟩
+
+theorem Reads.noErr {T : Tables} {inp : Array Nat} {a b : PState} (hinp : ∀ i : Nat, inp[i]? ≠ some 1)
+    (h : Reads T inp a b) (hl : a.la ≠ tERROR) (hq : a.qla ≠ tERROR) :
+    b.la ≠ tERROR ∧ b.qla ≠ tERROR := by
+  induction h with
+  | refl => exact ⟨hl, hq⟩
+  | step h _ ih =>
+    have := readToken_noErr hinp h hq
+    exact ih this.1 this.2
+
+theorem Reads.qla_noErr {T : Tables} {inp : Array Nat} {a b : PState}
+    (h : Reads T inp a b) (hq : a.qla ≠ tERROR) : b.qla ≠ tERROR := by
+  induction h with
+  | refl => exact hq
+  | @step s s1 s2 h _ ih =>
+    apply ih
+    rw [readToken_eq] at h
+    split at h
+    · cases h; show (-1 : Int) ≠ tERROR; decide
+    · split at h
+      · split at h
+        · cases h
+        · cases h; exact hq
+      · cases h; exact hq
+
+/-- When the lexer delivers no ERROR token, the lookahead queued by a successful `_recover()` is
+never ERROR. -/
+theorem recover_qla_real {T : Tables} {inp : Array Nat} {fuel : Nat} {s s' : PState}
+    (hinp : ∀ i : Nat, inp[i]? ≠ some 1) (hq : s.qla ≠ tERROR) (h : recover T inp fuel s = .ok s') :
+    s'.qla ≠ tERROR := by
+  obtain ⟨errSym, s0, s1, st, -, h0, hl0, h1, -, rfl, -⟩ := recover_ok h
+  exact (h1.noErr hinp hl0 (h0.qla_noErr hq)).1
+
 end Lox.LR.Rt
